@@ -77,7 +77,7 @@ func oblTags(c *Contract, kind string, tags []string) []string {
 }
 
 func contractServes(c *Contract, prop string) bool {
-	if hasTag(c.Tags, prop) || hasTag(c.Safety, prop) {
+	if hasTag(c.Tags, prop) || hasTag(c.Safety, prop) || hasTag(c.Serial, prop) {
 		return true
 	}
 	chk := func(cls []*Clause) bool {
